@@ -56,13 +56,16 @@ func HarnessC17BB(a []int) {
 
 // c17Core: the server side accepts m1..mk in order (through push); the application must see them in
 // that order, whatever the consumer does (mode: 0 always waiting, 1 absent during the burst, 2 takes
-// one telegram then stalls, 3 takes one, stalls and resumes in the middle of the burst). events is
+// one telegram then stalls, 3 takes one, stalls and resumes in the middle of the burst, 4 takes one,
+// stalls, takes exactly three more out of the backlog after a quarter of the burst and stalls again
+// until the end - so the queue is grown further while its head is no longer at the start). events is
 // set when the application reads group events instead of cEMI messages.
 func c17Core(a []int, inbound <-chan cemi.Message, events <-chan GroupEvent, push func(cemi.Message)) {
 	client, k, mode := a[0], a[1], a[2]
 	msgs := c17Msgs(k)
 	var order []int
 	gate := make(chan struct{})
+	permit := make(chan struct{}) // mode 4: one telegram per permit; closed = free run
 	group := events != nil
 	if len(a) > 3 && a[3] == 1 {
 		// warm-up: one telegram is accepted while nobody reads, parks in the overflow queue and is then
@@ -86,6 +89,9 @@ func c17Core(a []int, inbound <-chan cemi.Message, events <-chan GroupEvent, pus
 		for {
 			if mode == 1 || ((mode == 2 || mode == 3) && n == 1) {
 				<-gate // stalled until the burst is over (mode 3: until the server is half way through)
+			}
+			if mode == 4 && n >= 1 {
+				<-permit
 			}
 			id, ok := next()
 			if !ok {
@@ -127,11 +133,21 @@ func c17Core(a []int, inbound <-chan cemi.Message, events <-chan GroupEvent, pus
 			if mode == 3 && i == (k+1)/2 {
 				close(gate)
 			}
+			if mode == 4 && i == k/4 {
+				for j := 0; j < 3; j++ {
+					permit <- struct{}{}
+				}
+				verifQuiesce()
+				verifAssert("C17.partial_drain", len(order) == 4)
+			}
 			push(m)
 		}
 	}
 	if !(mode == 3 && !group) {
 		close(gate)
+	}
+	if mode == 4 {
+		close(permit)
 	}
 	verifQuiesce()
 	verifAssert("C17.all_delivered", len(order) == k)
